@@ -190,3 +190,122 @@ class SupportScalarNonOT(Contract):
                                     Ite(v < p, div(v - l, p - l), div(v - u, p - u))))
 
     ensures = [prop("tent-value", lambda a, old, r: eq(r, SupportScalarNonOT._spec(a.location["a"], *a.support["a"])))]
+
+
+# -- supportScalar for ANY number of axes (loop cut by invariant) ---------------------------
+import z3 as _z3
+from pyvc import sym as _sym
+from pyvc.loopcut import LoopSpec
+from pyvc.sym import SymNum as _SymNum
+
+
+class _Axes:
+    """Ghost model of `support` / `location` with an arbitrary number n of axes: axis k has
+    tent (L(k), Pk(k), U(k)); the location's coordinate on it is V(k) (absent -> 0.0 is the
+    same as V(k) = 0).  P(k) is the ghost prefix product of the per-axis OT scalars:
+    P(0) = 1, P(k+1) = P(k) * F(k)."""
+
+    def __init__(self):
+        R, I = _z3.RealSort(), _z3.IntSort()
+        self.n = _SymNum(_z3.Int("n_axes"))
+        self.L, self.Pk, self.U, self.V = (_z3.Function(nm, I, R) for nm in ("L", "Pk", "U", "V"))
+        self.P = _z3.Function("P", I, R)
+
+    def tent(self, i):
+        return (_SymNum(self.L(i.t)), _SymNum(self.Pk(i.t)), _SymNum(self.U(i.t)))
+
+    def F(self, i):
+        l, p, u = self.tent(i)
+        return spec_region_axis_scalar(_SymNum(self.V(i.t)), l, p, u)
+
+    def Pof(self, i):
+        i = _sym._lift(i)
+        return _SymNum(self.P(i.t))
+
+
+class _SupportItems:
+    def __init__(self, ax):
+        self.ax = ax
+
+    def __symlen__(self):
+        return self.ax.n
+
+    def at(self, i):
+        return (("axis", i), self.ax.tent(i))
+
+
+class _Support:
+    def __init__(self, ax):
+        self.ax = ax
+
+    def items(self):
+        return _SupportItems(self.ax)
+
+
+class _Location:
+    def __init__(self, ax):
+        self.ax = ax
+
+    def get(self, key, default=None):
+        return _SymNum(self.ax.V(key[1].t))
+
+    def __getitem__(self, key):
+        return _SymNum(self.ax.V(key[1].t))
+
+    def __contains__(self, key):
+        return True
+
+
+def _ss_havoc(F, env, i, n):
+    ax = env.support.ax
+    c = _sym.ctx()
+    # instances of the defining equations of the ghost product at the current index, and of
+    # the zero-absorption lemma (SupportScalarZeroAbsorbs below)
+    c.assume_term(ax.P(i.t + 1) == ax.P(i.t) * ax.F(i).real())
+    c.assume_term(_z3.Implies(ax.P(i.t + 1) == 0, ax.P(n.t) == 0))
+    return {"scalar": ax.Pof(i), "axis": None, "lower": None, "peak": None, "upper": None, "v": None,
+            "axisMin": None, "axisMax": None}
+
+
+@contract
+class SupportScalarAnyAxes(Contract):
+    """supportScalar(location, support) == the product over ALL axes of the OT region scalar,
+    for any number of axes (the loop over support.items() is cut by the invariant
+    scalar == P(i); P(0) == 1 and P(i+1) == P(i) * F(i) define the ghost product)."""
+    module = "fontTools.varLib.models"
+    qualname = "supportScalar"
+    props = ("C09", "C05")
+    cuts = {"supportScalar": {0: LoopSpec(
+        modifies=["scalar", "axis", "lower", "peak", "upper", "v", "axisMin", "axisMax"],
+        invariant=lambda env, i, n: eq(env.scalar, env.support.ax.Pof(i)),
+        havoc=_ss_havoc)}}
+    assumptions = ("ghost product P over the axes is defined by P(0)=1, P(k+1)=P(k)*F(k); instances at the cut index are assumed, zero absorption is proved as a separate lemma",)
+
+    def args(self, S, variant):
+        ax = _Axes()
+        S.ctx.symbols["n_axes"] = ax.n.t
+        S.ctx.assume_term(ax.n.t >= 0)
+        S.ctx.assume_term(ax.P(0) == 1)
+        return dict(location=_Location(ax), support=_Support(ax))
+
+    ensures = [prop("equals-product-of-OT-region-scalars", lambda a, old, r: eq(r, a.support.ax.Pof(a.support.ax.n)))]
+
+
+@contract
+class SupportScalarZeroAbsorbs(Contract):
+    """Lemma (induction step): if the prefix product is 0 at k it is 0 at k+1; hence, once a
+    factor is 0, the product over all axes is 0 (justifies the early `break`)."""
+    module = None
+    qualname = None
+    props = ("C09", "C05")
+
+    def args(self, S, variant):
+        return dict(pk=S.real("P_k"), f=S.real("F_k"))
+
+    def requires(self, a):
+        return eq(a.pk, 0)
+
+    def call(self, f, a):
+        return a.pk * a.f
+
+    ensures = [prop("step", lambda a, old, r: eq(r, 0))]
